@@ -1003,6 +1003,46 @@ def subprocess_many(reqs, par=16):
         return list(ex.map(in_subprocess, reqs))
 
 
+def _handle_req(req):
+    return run_history(req["cfg"], req["runs"], req.get("probe") or [], with_fresh=False)
+
+
+def zygote_main():
+    """`c12.py --zygote`: imports the implementation and places the taps, runs NOTHING itself, and forks one new child
+    per request (`maxtasksperchild=1`): every request starts from the state a process has right after the import —
+    the state of a fresh process — without paying the import each time"""
+    import multiprocessing as mp
+    impl()
+    reqs = json.loads(sys.stdin.read())
+    if not reqs:
+        sys.stdout.write("[]")
+        return
+    with mp.get_context("fork").Pool(processes=min(16, len(reqs)), maxtasksperchild=1) as pool:
+        out = pool.map(_handle_req, reqs, chunksize=1)
+    sys.stdout.write(json.dumps(out))
+    sys.stdout.flush()
+
+
+def fresh_processes(reqs, timeout=2400):
+    """each request in a process of its own that has executed nothing before it (forked from a pristine zygote)"""
+    env = dict(os.environ)
+    env["PYTHONPATH"] = HERE + os.pathsep + env.get("PYTHONPATH", "")
+    env["VERIF_REPO"] = REPO
+    env.setdefault("PYTHONHASHSEED", "0")
+    env["PYTHONDONTWRITEBYTECODE"] = "1"
+    try:
+        r = subprocess.run([PY, os.path.join(HERE, "c12.py"), "--zygote"], input=json.dumps(reqs), capture_output=True,
+                           text=True, timeout=timeout, env=env, cwd=VERIF)
+    except subprocess.TimeoutExpired:
+        raise Infra("fresh-process zygote timed out")
+    if r.returncode != 0:
+        raise Infra("fresh-process zygote failed: " + r.stderr[-600:])
+    out = json.loads(r.stdout)
+    if len(out) != len(reqs):
+        raise Infra("fresh-process zygote answered the wrong number of requests")
+    return out
+
+
 def process_history_failures(cfg, runs, obs, alone):
     """history in ONE process (one provider object / the shared default) vs each run alone in its own fresh process"""
     fails = []
@@ -1023,7 +1063,7 @@ def process_history_failures(cfg, runs, obs, alone):
 def part_b_processes(chk, corpus):
     rng = chk.rng
     thorough = chk.tier == "thorough"
-    n_hist = 220 if thorough else 21
+    n_hist = 220 if thorough else 24
     by_cfg = {}
     for c in corpus:
         by_cfg.setdefault(canon_json(c["cfg"]), []).append(c)
@@ -1036,7 +1076,7 @@ def part_b_processes(chk, corpus):
         pool = by_cfg[key]
         cfg = pool[0]["cfg"]
         runs = []
-        for _ in range(rng.randint(4, 9) if thorough else rng.randint(4, 7)):
+        for _ in range(rng.randint(4, 9)):
             spec = dict(rng.choice(pool)["spec"])
             r = rng.random()
             if r < 0.3 and cfg is not None:
@@ -1064,15 +1104,15 @@ def part_b_processes(chk, corpus):
             distinct.setdefault(canon_json([hst["cfg"], spec]), {"cfg": hst["cfg"], "runs": [spec], "probe": probe})
     t0 = time.time()
     keys_d = list(distinct)
-    alone_obs = subprocess_many([distinct[k] for k in keys_d])
+    alone_obs = fresh_processes([distinct[k] for k in keys_d])
     alone = {k: o[0] for k, o in zip(keys_d, alone_obs)}
-    # determinism of the reference itself: a second fresh process for a sample (a run whose result varies from process
-    # to process cannot be judged by comparison; it is skipped and counted)
-    sample_keys = rng.sample(keys_d, min(len(keys_d), 40 if thorough else 8))
+    # determinism of the reference itself, and of the way it is obtained: a sample again, each in a newly started
+    # interpreter (a run whose result varies from process to process cannot be judged by comparison; skipped, counted)
+    sample_keys = rng.sample(keys_d, min(len(keys_d), 40 if thorough else 6))
     again = subprocess_many([distinct[k] for k in sample_keys])
     unstable = {k for k, o in zip(sample_keys, again) if o[0]["result"] != alone[k]["result"]}
-    hist_obs = subprocess_many([{"cfg": hst["cfg"], "runs": hst["runs"], "probe": probe} for hst in hists])
-    log(f"[c12] B: {len(hists)} process histories + {len(keys_d)} single-run fresh processes in {time.time() - t0:.1f}s")
+    hist_obs = fresh_processes([{"cfg": hst["cfg"], "runs": hst["runs"], "probe": probe} for hst in hists])
+    log(f"[c12] B: {len(hists)} process histories + {len(keys_d)} single-run fresh processes (+{len(sample_keys)} new interpreters) in {time.time() - t0:.1f}s")
     n = 0
     for hst, obs in zip(hists, hist_obs):
         cfg, runs = hst["cfg"], hst["runs"]
@@ -1374,3 +1414,5 @@ def run(chk):
 if __name__ == "__main__":
     if len(sys.argv) > 1 and sys.argv[1] == "--worker":
         worker_main()
+    elif len(sys.argv) > 1 and sys.argv[1] == "--zygote":
+        zygote_main()
